@@ -22,6 +22,10 @@ CONSTANTS
   MaxMigs = 2
   StaleTableAtStart = TRUE
   MaxFollowed = 2
+  DeathKinds = {"refused"}
+  RefreshOnTimeout = TRUE
+  PromotedFlags = {{"master"}}
+  ParserSkips = {}
 INVARIANTS NoRedirectError EffectOnce EqualsReference
 CONSTRAINT HopBound
 CHECK_DEADLOCK FALSE
